@@ -22,10 +22,10 @@ RULE = ("controlled scheduling of the real store code: two (thorough: also three
         "as they do after the matching sequential execution (a store object left stale by the race shows here); plus UID uniqueness, git fsck, linear history, index == HEAD; thorough adds an HTTP stress run with delay injection and a per-name linearisability check; "
         "distinct = distinct interleavings (hash of the (thread, yield) sequence)")
 
-OPS = ["put_new_c", "put_new_d_same_uid", "put_a_cond1", "put_a_cond2", "put_a_uncond", "put_b", "del_a_cond", "del_a", "del_b", "set_name"]
+OPS = ["put_new_c", "put_new_d_same_uid", "put_a_cond1", "put_a_cond2", "put_a_uncond", "put_b", "del_a_cond", "del_a", "del_b", "set_name", "get_a"]
 QUICK_PAIRS = [("put_a_cond1", "put_a_cond2"), ("put_new_c", "put_new_d_same_uid"), ("put_a_uncond", "put_b"), ("put_a_cond1", "del_a_cond"), ("put_b", "del_a"), ("put_new_c", "put_b"),
                ("del_a_cond", "del_a"), ("put_a_cond1", "put_b"), ("set_name", "put_b"), ("del_a", "del_b"), ("put_a_uncond", "del_a"), ("put_new_c", "del_b"), ("set_name", "put_new_c"),
-               ("put_a_cond1", "put_a_uncond")]
+               ("put_a_cond1", "put_a_uncond"), ("get_a", "put_a_uncond"), ("get_a", "del_a")]
 
 
 def sha(b):
@@ -45,7 +45,7 @@ def bodies(rng):
 # that took part in the race: their answers too must be those of a sequential execution
 # (the two puts with a's UID come first and go through different store objects: the second one is issued by a store
 # object that may not have looked at the collection since before the race)
-FOLLOWUPS = [("f.ics", "f", "put-new-name-with-uid-of-a"), ("g.ics", "g", "put-another-new-name-with-uid-of-a"), ("e.ics", "e", "put-new-name-with-uid-of-c")]
+FOLLOWUPS = [("a.ics", "a1", "conditional-put-of-a-with-its-etag-from-before-the-race"), ("f.ics", "f", "put-new-name-with-uid-of-a"), ("g.ics", "g", "put-another-new-name-with-uid-of-a"), ("e.ics", "e", "put-new-name-with-uid-of-c")]
 
 
 def run_followups(getters, B, shift=0):
@@ -55,7 +55,8 @@ def run_followups(getters, B, shift=0):
     for k, (name, b, _) in enumerate(FOLLOWUPS):
         try:
             st = getters[(k + shift) % len(getters)]()
-            r = ("value", ("ok", st.import_one(name, "text/calendar", [B[b]])[1]))
+            kw = {"replace_etag": B["__e0"]} if name == "a.ics" else {}
+            r = ("value", ("ok", st.import_one(name, "text/calendar", [B[b]], **kw)[1]))
         except Exception as e:  # noqa
             r = ("exc", e)
         out.append(outcome(r)[0])
@@ -85,6 +86,14 @@ def make_op(name, st, B, e0):
         return lambda: ("ok", st().delete_one("b.ics"))
     if name == "set_name":
         return lambda: ("ok", st().set_displayname("renamed"))
+    if name == "get_a":
+        # a read by name (the store looks the current etag up itself); the value tells which version was read
+        def get_a():
+            try:
+                return ("ok", sha(b"".join(st().get_file("a.ics", "text/calendar").content)))
+            except KeyError:
+                return ("ok", "no-such-item")      # get_file's documented answer for a missing item
+        return get_a
     raise ValueError(name)
 
 
@@ -127,6 +136,7 @@ class Scenario:
         st.import_one("a.ics", "text/calendar", [self.B["a0"]])
         st.import_one("b.ics", "text/calendar", [self.B["b0"]])
         self.e0 = [e for n, c, e in st.iter_with_etag() if n == "a.ics"][0]
+        self.B["__e0"] = self.e0
         del st
         self.work = os.path.join(base, "work")
         self.seq = None
@@ -272,6 +282,9 @@ def classify_anomaly(sc, outs, fin, acceptable):
     oks = [names[i] for i, o in outs.items() if o[0] == "ok"]
     if "put_new_c" in oks and "put_new_d_same_uid" in oks:
         return "duplicate-uid"
+    if "del_a_cond" in oks and "del_a" in oks:
+        # an item can be deleted once (the store decides that under its lock, whatever the pre-lock checks saw)
+        return "same-item-deleted-twice"
     if "put_a_cond1" in oks and "put_a_cond2" in oks:
         return "double-conditional-success"
     cond = [n for n in oks if n in ("put_a_cond1", "put_a_cond2", "del_a_cond")]
